@@ -183,27 +183,28 @@ def validate_trace(path, module="ThriftTrace", max_rejects=8, timeout=1800):
     return res4
 
 
-def _validate_trace(text, module, max_rejects, timeout):
-    lines = [l for l in text.split("\n") if l.strip()]
-    runs = split_runs(lines)
+CHUNK_LINES = 60000
+
+
+def _validate_chunk(args):
+    """One TLC trace-validation process over a list of runs; returns (events, runs_left, rejections)."""
+    runs, module, max_rejects, timeout, tag = args
+    runs = list(runs)
     rejections = []
-    crashed = [r for r in runs if json.loads(r[0]).get("err")]
-    runs = [r for r in runs if not json.loads(r[0]).get("err")]
     total_events = 0
     for _ in range(max_rejects + 1):
-        cur = os.path.join(c.OUT, f"trace-val-{os.getpid()}.ndjson")
+        cur = os.path.join(c.OUT, f"trace-val-{os.getpid()}-{tag}.ndjson")
         flat = [l for r in runs for l in r]
         if not flat:
             break
         open(cur, "w").write("\n".join(flat) + "\n")
-        res = c.tlc(module, env={"VERIF_TRACE": cur}, workers=1, timeout=timeout, deque=True, tag="trace")
+        res = c.tlc(module, env={"VERIF_TRACE": cur}, workers=1, timeout=timeout, deque=True, tag=f"trace{tag}")
         os.remove(cur)
         if res["ok"]:
             total_events = len(flat)
             break
         if "REJECTED" not in res["out"]:
             raise c.ToolError("trace validation failed without a rejection:\n" + res["out"][-4000:])
-        import re
         m = re.search(r'"REJECTED",\s*(\d+)', res["out"])
         d = int(m.group(1))
         # locate the run containing line d (1-based)
@@ -219,7 +220,37 @@ def _validate_trace(text, module, max_rejects, timeout):
                 del runs[ri]
                 break
             n += len(r)
-    return total_events, len(runs), rejections, crashed
+    return total_events, len(runs), rejections
+
+
+def _validate_trace(text, module, max_rejects, timeout):
+    """Runs are independent (a reset line separates them), so a long recording is validated in chunks of whole runs,
+    a few TLC processes side by side: time stays linear in the length of the recording and no single TLC process
+    holds more than CHUNK_LINES events."""
+    lines = [l for l in text.split("\n") if l.strip()]
+    runs = split_runs(lines)
+    crashed = [r for r in runs if json.loads(r[0]).get("err")]
+    runs = [r for r in runs if not json.loads(r[0]).get("err")]
+    chunks, cur, n = [], [], 0
+    for r in runs:
+        if cur and n + len(r) > CHUNK_LINES:
+            chunks.append(cur)
+            cur, n = [], 0
+        cur.append(r)
+        n += len(r)
+    if cur:
+        chunks.append(cur)
+    jobs = [(ch, module, max_rejects, timeout, i) for i, ch in enumerate(chunks)]
+    if len(jobs) <= 1:
+        results = [_validate_chunk(j) for j in jobs]
+    else:
+        from concurrent.futures import ThreadPoolExecutor
+        with ThreadPoolExecutor(max_workers=4) as ex:
+            results = list(ex.map(_validate_chunk, jobs))
+    total_events = sum(r[0] for r in results)
+    nruns = sum(r[1] for r in results)
+    rejections = [x for r in results for x in r[2]][: max_rejects * 2]
+    return total_events, nruns, rejections, crashed
 
 
 def record(seed, nvalues):
